@@ -15,16 +15,14 @@ from .wire import ENTRIES, arg_token, dtags_token, script_token, hx, rand_val, r
 class MCase:
     def __init__(self, prefix, dtags, dcid, script, steps):
         # steps: ("S",) | ("Z",) | ("I"|"T", kind, ty, v, key, tags) | ("G",) | ("GT",) | ("Q",) | ("QT",)
-        # G/Q (get_global_default / is_global_default_set, T = on a fresh thread) are not steps of the model: they change
-        # nothing; the model runs the case without them (ft given), the judge evaluates them against "a set came before"
+        # G/Q (get_global_default / is_global_default_set, T = on a fresh thread) are the model's PGet / PIsSet
         self.prefix, self.dtags, self.dcid, self.script, self.steps = prefix, dtags, dcid, script, steps
 
     def line(self, ft=None):
         st = []
         for s in self.steps:
             if s[0] in ("G", "GT", "Q", "QT"):
-                if ft is None:
-                    st.append(s[0])
+                st.append(s[0])
             elif s[0] in "SZ":
                 st.append(s[0])
             else:
@@ -216,9 +214,7 @@ def check_C17(tier, seed):
         rep.violation_input("%s (%d failing invocations; smallest case shown)" % (msg[:300], len(failures)),
                             {"bin": "mac", "case": l, "implementation": o[:3000], "clause": msg,
                              "how": "build/target/release/harness mac <file with the case line> (runs the case in a fresh child process)"})
-    def no_queries(o):
-        return "|".join(x for x in o.split("|") if x[:1] not in ("g", "q"))
-    dis = [(len(l), l, i, m) for l, i, m in zip(lines, impl, model) if no_queries(i) != m]
+    dis = [(len(l), l, i, m) for l, i, m in zip(lines, impl, model) if i != m]
     if dis and not failures:
         dis.sort()
         _, l, i, m = dis[0]
